@@ -122,6 +122,7 @@ type wrappedSink struct {
 	lastError             error
 	lastProcessed         int
 	recursionDepth        int
+	failedInRun           bool // a batch was rejected by the sink since the last reset
 }
 
 // verifyErrorHandlers checks that the error handlers are valid, and also
@@ -304,6 +305,7 @@ func (w *wrappedSink) processEntities(runner *Runner, entities []*server.Entity)
 	// try to run batch
 	err := w.s.processEntities(runner, entities)
 	if err != nil {
+		w.failedInRun = true
 		// if this was a single entity, and it failed, run handles
 		if len(entities) <= 1 {
 			for _, eh := range w.failingEntityHandlers {
@@ -344,8 +346,9 @@ func (w *wrappedSink) processEntities(runner *Runner, entities []*server.Entity)
 			return leftErr
 		}
 	} else {
-		// unset error if this was an unsplit batch without failure
-		if w.recursionDepth == 0 {
+		// unset error (of a previous run) if this was an unsplit batch without failure.
+		// errors of the current run must survive later successful batches.
+		if w.recursionDepth == 0 && !w.failedInRun {
 			w.lastError = nil
 		}
 	}
@@ -362,6 +365,7 @@ func (w *wrappedSink) endFullSync(ctx context.Context, runner *Runner) error {
 
 func (w *wrappedSink) reset() {
 	w.recursionDepth = 0
+	w.failedInRun = false
 	for _, eh := range w.failingEntityHandlers {
 		eh.reset()
 	}
